@@ -3,6 +3,7 @@
    ops:    S<tok> (uv_read_start)  T (uv_read_stop)  C (uv_close)  R<raw>,<wout> (one
            uv_run(UV_RUN_NOWAIT) during which epoll reported <raw> for the descriptor while
            POLLOUT was <wout> = 0/1 requested)  I<ev> (uv__stream_io entered with <ev>)
+           X (a uv_write from our side, any outcome)
    beh:    what the k-th read callback does: S<tok> T C
    allocs: what the k-th alloc callback returns, cyclically: <len> | n<len> (base NULL)
    oracle: answers of read/recvmsg in order: d<n> a z e<errno> i
@@ -25,6 +26,7 @@ let parse_op (tok : string) : op =
             | [raw] -> ORun (z_of_string raw, false)
             | _ -> failwith ("bad op " ^ tok))
   | 'I' -> OIo (z_of_string arg)
+  | 'X' -> OWrite
   | _ -> failwith ("bad op " ^ tok)
 
 let parse_ans (tok : string) : ans =
@@ -84,14 +86,14 @@ let case (line : string) : string =
   | _ -> failwith "bad case"
 
 (* mode "mon": a trace in the canonical format (the implementation's own, harness-only
-   upper-case tokens W G H Q U K M B V Y O D skipped) is parsed back into events and judged by the
+   upper-case tokens W G H Q U K M B V Y O D Z E N skipped) is parsed back into events and judged by the
    extracted checker Spec/StreamReadSpec.v [monitor]; prints four 0/1 digits:
    exact stream, alloc paired, silent until restart, no NULL call *)
 let parse_event (tok : string) : event option =
   let arg = String.sub tok 1 (String.length tok - 1) in
   let nat_ s = nat_of_int (int_of_string s) in
   match tok.[0] with
-  | 'W' | 'G' | 'H' | 'Q' | 'U' | 'K' | 'M' | 'B' | 'V' | 'Y' | 'O' | 'D' -> None
+  | 'W' | 'G' | 'H' | 'Q' | 'U' | 'K' | 'M' | 'B' | 'V' | 'Y' | 'O' | 'D' | 'Z' | 'E' | 'N' -> None
   | 'P' -> Some (EPoll (z_of_string arg))
   | 'A' ->
       let arg = if String.length arg > 0 && arg.[0] = '!' then String.sub arg 2 (String.length arg - 2) else arg in
